@@ -304,7 +304,7 @@ def run_shard(ctx):
         for r in ids:
             if r[0] not in cids:
                 cids.append(r[0])
-        if len(cids) >= 2 and draw(st.integers(0, 3)) == 0:
+        if len(cids) >= 2 and (draw(st.integers(0, 3)) == 0 or ("_" in cids and draw(st.booleans()))):
             # together with a chain selection: the list then acts on what the selection kept
             chains = list(draw(st.permutations(cids))[:draw(st.integers(1, len(cids)))])
         return s, pdbio.write(entries), list(listed), phantoms, mode == "all", chains
